@@ -155,6 +155,12 @@ func (p *Plenc) CodecForTypeRegistry(registry plenccodec.CodecRegistry, typ refl
 				// Can probably support these if we don't allow missing entries
 				return nil, fmt.Errorf("slices of pointers to float32 & float64 are not supported")
 			}
+			if k := subt.Kind(); k != reflect.Float32 && k != reflect.Float64 {
+				// Fixed-size elements are written back to back, so every
+				// element must be present: a nullable float cannot be an
+				// element either
+				return nil, fmt.Errorf("slices of nullable floats are not supported")
+			}
 			c = plenccodec.WTFixedSliceWrapper{BaseSliceWrapper: bs}
 		case plenccore.WTLength:
 			if p.ProtoCompatibleArrays || tag == "proto" {
